@@ -694,6 +694,32 @@ def r_conv(f):
         g = G(b, f)
         dom = b.dominators()
         lg = [(gbi, okb) for (gbi, op, lo, ro, okb) in g.guards() if op in ops_ok and "len(" in (show(lo) + " " + show(ro))]
+        if ident != "TooDee::from_vec":
+            # the window taken from the caller's slice by a CHECKED std primitive is a length guard as well: `data.split_at(size)`,
+            # `&data[..size]` (panic when size > len), `data.get(..size)` / `get_mut(..size)` whose None arm panics
+            dgl = Dfx(b)
+            slice_params = [i for i in range(1, b.arg_count + 1) if re.match(r"^&('\S+ )?(mut )?\[", str(b.locals[i]))]
+            for bi_, t_, fn_ in b.calls():
+                if not (fn_ and t_["args"] and "slice" in (fn_.get("path") or "") + " " + " ".join(fn_.get("args") or []) or (fn_ and fn_["name"] in ("index", "index_mut"))):
+                    continue
+                recv_ = dgl.expr(t_["args"][0])
+                if not any(x == ("param", sp_) for sp_ in slice_params for x in walk(recv_)):
+                    continue
+                if fn_["name"] in ("split_at", "split_at_mut") or (fn_["name"] in ("index", "index_mut") and "Range" in " ".join(fn_.get("args") or [])):
+                    if t_.get("target") is not None:
+                        lg.append((bi_, t_["target"]))
+                elif fn_["name"] in ("get", "get_mut", "split_at_checked", "split_at_mut_checked") and t_.get("target") is not None:
+                    # the switch on the Option: the None arm must diverge
+                    for sb_, bl_ in enumerate(b.blocks):
+                        tt_ = bl_["term"]
+                        if tt_ and tt_["k"] == "switch" and not bl_["cleanup"]:
+                            e_ = strip(dgl.expr(tt_["discr"]))
+                            if e_[0] == "discr" and strip(e_[1])[0] == "call" and strip(e_[1])[2] == fn_["name"]:
+                                tm_ = dict((int(a_), b2) for a_, b2 in tt_["targets"])
+                                none_t = tm_.get(0)
+                                some_t = tm_.get(1, tt_["otherwise"])
+                                if none_t is not None and g.diverges(none_t) and some_t is not None and not g.diverges(some_t):
+                                    lg.append((sb_, some_t))
         rets = [rb for rb, bl in enumerate(b.blocks) if bl["term"] and bl["term"]["k"] == "return" and not bl["cleanup"] and rb in b.reachable(0)]
         byp = [rb for rb in rets if not any(okb == rb or okb in dom.get(rb, set()) for _, okb in lg)]
         ok = bool(lg) and not byp
